@@ -156,7 +156,7 @@ Definition env_after {A} (x : res A * envt * list effect) : envt := snd (fst x).
 
 (* syscall.Setenv: EINVAL for an empty key, a key holding '=' or NUL, a value holding NUL *)
 Definition setenv_valid (k v : string) : bool :=
-  negb (is_empty k) && negb (existsb_str (fun c => aeqb c c_eq || aeqb c (ch 0)) k) && negb (contains_char (ch 0) v).
+  negb (is_empty k) && negb (existsb_str (fun c => aeqb c c_eq || aeqb c c_nul) k) && negb (contains_char c_nul v).
 Definition setenv (k v : string) : M unit :=
   fun e => if setenv_valid k v then (Ok tt, (k, v) :: e, [ESetenv k v]) else (Err, e, []).
 
@@ -613,7 +613,7 @@ Definition buildHandlers (variables : list string) (h : handlerOnDef) (fns : lis
 (* parser.go:335 parseTags *)
 Definition parseTags (v : yv) : list string :=
   match v with
-  | VStr s => filter (fun t => negb (is_empty t)) (map (fun x => lower (trim_space x)) (split_char (ch 44) s))
+  | VStr s => filter (fun t => negb (is_empty t)) (map (fun x => lower (trim_space x)) (split_char c_comma s))
   | VList l => map (fun x => lower (trim_space (match x with VStr s => s | _ => fmt_v x end))) l
   | _ => []
   end.
